@@ -644,6 +644,12 @@ func (s *Server) handleLCPTermRequest(session *Session, pkt *LCPPacket) {
 
 	// Terminate session
 	session.SetState(StateClosed)
+
+	// Release IP (as handlePADT does)
+	if s.clientIPPool != nil {
+		s.clientIPPool.Release(session.SessionID)
+	}
+
 	s.sessions.RemoveSession(session.ID)
 }
 
@@ -751,8 +757,11 @@ func (s *Server) handlePAP(session *Session, data []byte) {
 		session.SetState(StateIPCPNegotiation)
 		s.startIPCPNegotiation(session)
 	} else {
-		// Terminate
+		// Terminate; an address from an earlier successful authentication goes back to the pool
 		session.SetState(StateClosed)
+		if s.clientIPPool != nil {
+			s.clientIPPool.Release(session.SessionID)
+		}
 	}
 }
 
